@@ -409,6 +409,63 @@ theorem scores_size (fuel : Nat) (k : Consts K) (s : Store K) {r : ComputeReq K}
   rw [C08.discount_dim, hdim] at this
   exact this
 
+/-- Over exact arithmetic a valid request is never answered 500: with the handler's constants
+    in range (`0 ≤ 0.5 ≤ 1`, `1e-6 > 0`) the effective inputs pass every validation of
+    `basic.Compute`, and a non-finite delta cannot occur; so both endpoints answer 200. -/
+theorem valid_ok [IsStrictOrderedRing K] (fuel : Nat) (k : Consts K) (s : Store K)
+    {r : ComputeReq K} (hv : ValidReq r) (hh : 0 ≤ k.half ∧ k.half ≤ 1) (he : 0 < k.epsNum) :
+    ∃ o, computeCore fuel k s r = .ok o ∧ handleCompute fuel k s r = .ok o.scores ∧
+      handleComputeWithStats fuel k s r = .ok (o.scores, o.stats) := by
+  obtain ⟨eff, hp⟩ := prepare_ok k s hv
+  obtain ⟨hpos, d1, d2, _, d4, _, _, _, _, d9⟩ := prepare_dims k s hv hp
+  obtain ⟨f1, f2, f3, _, f5, _, _, f8, f9, f10⟩ := prepare_defaults k s hv hp
+  have hvalid : ValidInput eff.c eff.p eff.a eff.e eff.opts := by
+    refine ⟨d1.trans d2.symm, by rw [d1]; omega, d4.trans d1.symm, ?_, ?_, ?_, ?_, ?_, ?_, ?_, ?_⟩
+    · intro t ht; rw [f3] at ht; rw [d1]; exact (d9 t ht).1
+    · intro d hd; rw [f5] at hd; cases hd
+    · rw [f1]
+      cases ha : r.alpha with
+      | none => simpa using hh.1
+      | some a => simpa using (hv.alpha a ha).1
+    · rw [f1]
+      cases ha : r.alpha with
+      | none => simpa using hh.2
+      | some a => simpa using (hv.alpha a ha).2
+    · rw [f2]
+      cases hep : r.epsilon with
+      | none =>
+        have : (0 : K) < k.epsNum / (docDim r : K) := div_pos he (Nat.cast_pos.mpr hpos)
+        simpa using this
+      | some e => simpa using (hv.epsilon e hep).1
+    · rw [f10]
+      cases hc : r.checkFreq with
+      | none => simp
+      | some x => simpa using hv.checkFreq x hc
+    · rw [f8]
+      cases hc : r.maxIterations with
+      | none => simp
+      | some x => simpa using hv.maxIterations x hc
+    · rw [f9, f10]
+      cases hm : r.minIterations with
+      | none =>
+        cases hc : r.checkFreq with
+        | none => simp
+        | some x => have := hv.checkFreq x hc; simp only [Option.getD_some, Option.getD_none]; omega
+      | some x => have := hv.minIterations x hm; simp only [Option.getD_some]; omega
+  have hnf := loopOf_not_nonFinite fuel eff.c eff.p eff.a eff.e eff.opts
+  obtain ⟨res, hres, _⟩ := C05.compute_ok fuel eff.c eff.p eff.a eff.e eff.opts hvalid
+    (loopOf fuel eff.c eff.p eff.a eff.e eff.opts).1 (loopOf fuel eff.c eff.p eff.a eff.e eff.opts).2
+    rfl hnf
+  have hcore : computeCore fuel k s r =
+      .ok { scores := discountTrustVector res.t eff.discounts, stats := res.stats,
+            iters := res.iters } := by
+    unfold computeCore
+    rw [hp]
+    simp only [hres]
+  refine ⟨_, hcore, ?_, ?_⟩
+  · unfold handleCompute; rw [hcore]
+  · unfold handleComputeWithStats; rw [hcore]
+
 /-! ## 5. stored and inline local trust -/
 
 /-- The body of `GET /local-trust/{id}` for a stored matrix `M` (well-formed, square, no stored
@@ -421,22 +478,39 @@ theorem stored_eq_inline (M : CSM K) (hw : WFM M) (hsq : M.major = M.minor)
       M'.rows = M.rows ∧ M'.major = M.major ∧ M'.minor = M.minor ∧ M'.hidden = [] :=
   ⟨_, load_renderI hw hsq hnz h1, rfl, rfl, hsq, rfl⟩
 
-/-- Hence, when nothing is hidden behind the stored row table, a request naming the stored
-    matrix and the request carrying its GET body inline are prepared identically (and so yield
-    identical answers). -/
-theorem prepare_stored_eq_inline (k : Consts K) (s : Store K) (r : ComputeReq K) (id : String)
-    (M : CSM K) (hs : s.get? id = some M) (hw : WFM M) (hsq : M.major = M.minor)
-    (hh : M.hidden = []) (hnz : ∀ i, ∀ e ∈ M.rows.getD i [], e.val ≠ 0) (h1 : 1 ≤ M.major) :
-    prepare k s { r with localTrust := .stored id } =
-      prepare k s { r with localTrust := .inline (renderI M) } := by
-  have hM : (⟨M.major, M.major, M.rows, []⟩ : CSM K) = M := by
-    cases M; simp only at hsq hh; subst hsq; subst hh; rfl
-  have hl : loadMatrix s (.inline (renderI M)) = loadMatrix s (.stored id) := by
+/-- Hence a request naming a stored matrix `M` (satisfying the store invariant `MatInv`, which
+    holds in every store reachable from the empty one, see `C13.reachable_inv`) is prepared and
+    answered exactly like the request carrying the GET body of `M` inline; that inline request is
+    valid whenever the rest of the request is, its documented dimension is the largest of
+    `M`'s size and the given vector sizes, and its dense local trust is the content of `M`.
+    All theorems of sections 1–4 therefore apply to stored references through `r'`. -/
+theorem stored_request_reduces (fuel : Nat) (k : Consts K) (s : Store K) (r : ComputeReq K)
+    (id : String) (M : CSM K) (hid : r.localTrust = .stored id) (hg : s.get? id = some M)
+    (hM : MatInv M) :
+    prepare k s r = prepare k s { r with localTrust := .inline (renderI M) } ∧
+    computeCore fuel k s r = computeCore fuel k s { r with localTrust := .inline (renderI M) } ∧
+    handleCompute fuel k s r = handleCompute fuel k s { r with localTrust := .inline (renderI M) } ∧
+    handleComputeWithStats fuel k s r =
+      handleComputeWithStats fuel k s { r with localTrust := .inline (renderI M) } ∧
+    (ValidRest r → ValidReq { r with localTrust := .inline (renderI M) }) ∧
+    docDim { r with localTrust := .inline (renderI M) } =
+      max M.major (max (vecSize r.preTrust) (vecSize r.initialTrust)) ∧
+    (∀ i j, matDen (MatrixRef.inline (renderI M)) i j = denRows M.rows i j) := by
+  have hl : loadMatrix s (.inline (renderI M)) = loadMatrix s r.localTrust := by
+    rw [hid]
     show loadInlineMatrix (renderI M) = s.get? id
-    rw [hs, load_renderI hw hsq hnz h1, hM]
-  rw [prepare_eq, prepare_eq]
-  simp only [hl]
-  rfl
+    rw [hg, load_renderI_eq hM]
+  have hp : prepare k s r = prepare k s { r with localTrust := .inline (renderI M) } := by
+    rw [prepare_eq, prepare_eq]
+    simp only [hl]
+    rfl
+  have hc : computeCore fuel k s r =
+      computeCore fuel k s { r with localTrust := .inline (renderI M) } := by
+    unfold computeCore; rw [hp]
+  refine ⟨hp, hc, by unfold handleCompute; rw [hc], by unfold handleComputeWithStats; rw [hc],
+    fun hr => hr.withInline (valid_renderI hM.wfm hM.square hM.pos), ?_,
+    fun i j => denIM_renderI hM i j⟩
+  simp [docDim, matSize, renderI]
 
 /-! ## non-vacuity at `K := ℚ` -/
 
@@ -580,15 +654,45 @@ example : handleCompute 10 exK [] { exReq with minIterations := some 0 } = .badR
   badRequest_of_prepare_none _ _ _ _
     (prepare_invalid_option _ _ _ (.inr (.inr (.inr (.inl ⟨0, rfl, by decide⟩)))))
 
-/-- a stored 2×2 matrix and its GET body -/
+/-- a stored 2×2 matrix (with a distrust entry) and its GET body -/
 private def exM : CSM ℚ := ⟨2, 2, [[⟨1, 3⟩], [⟨0, 1⟩, ⟨1, -2⟩]], []⟩
-example : WFM exM ∧ exM.major = exM.minor ∧ (∀ i, ∀ e ∈ exM.rows.getD i [], e.val ≠ 0) ∧
-    1 ≤ exM.major := by
-  refine ⟨by simp [WFM, WF, Sorted, exM], rfl, ?_, by decide⟩
+private theorem exM_inv : MatInv exM := by
+  refine ⟨by simp [WFM, WF, Sorted, exM], rfl, by simp [HiddenClean, exM], ?_, by decide, rfl⟩
   intro i e he
   rcases i with _ | _ | i <;> simp [exM] at he
   · subst he; norm_num
   · rcases he with rfl | rfl <;> norm_num
+
+example := stored_eq_inline exM exM_inv.wfm exM_inv.square exM_inv.noZero exM_inv.pos
+
+/-- a request naming the stored matrix, with the pre-trust of the API document (size 3) -/
+private def exReqS : ComputeReq ℚ :=
+  { localTrust := .stored "m", preTrust := some (.inline exPT) }
+
+example :
+    ValidReq { exReqS with localTrust := .inline (renderI exM) } ∧
+    docDim { exReqS with localTrust := .inline (renderI exM) } = 3 ∧
+    prepare exK [("m", exM)] exReqS =
+      prepare exK [("m", exM)] { exReqS with localTrust := .inline (renderI exM) } := by
+  obtain ⟨h1, _, _, _, h5, h6, _⟩ :=
+    stored_request_reduces 10 exK [("m", exM)] exReqS "m" exM rfl (by decide) exM_inv
+  refine ⟨h5 ⟨exReq_valid.preTrust, trivial, nofun, nofun, nofun, nofun, nofun, nofun, nofun⟩, ?_, h1⟩
+  rw [h6]; decide
+
+/-- the worked example is answered 200 by both endpoints, with 3 scores keyed by peer index -/
+example : ∃ o, computeCore 100 exK [] exReq = .ok o ∧
+    handleCompute 100 exK [] exReq = .ok o.scores ∧
+    handleComputeWithStats 100 exK [] exReq = .ok (o.scores, o.stats) ∧
+    o.scores.dim = 3 ∧ WF 3 o.scores.entries := by
+  obtain ⟨o, ho, h1, h2⟩ := valid_ok 100 exK [] exReq_valid (by norm_num [exK]) (by norm_num [exK])
+  have hd : docDim exReq = 3 := by decide
+  have := scores_size 100 exK [] exReq_valid o ho
+  rw [hd] at this
+  exact ⟨o, ho, h1, h2, this⟩
+
+example := endpoints_agree 100 exK [] exReq
+example (o : ComputeOut ℚ) (h : computeCore 100 exK [] exReq = .ok o) :=
+  compute_scores_def 100 exK [] exReq o h
 
 end examples
 
